@@ -275,7 +275,11 @@ impl MultiReceiver {
             }
         }
 
-        self.alc_receiver.retain(|_, v| !v.is_expired());
+        // Remove exactly the sessions found expired above: a second evaluation of
+        // is_expired() could remove a session that listeners are not notified of
+        for endpoint in &output {
+            self.alc_receiver.remove(endpoint);
+        }
         for receiver in &mut self.alc_receiver.values_mut() {
             receiver.cleanup(now);
         }
